@@ -73,7 +73,7 @@ from time import time, sleep
 import multiprocessing as mp
 from functools import partial
 from pickle import PicklingError
-from concurrent.futures import Executor
+from concurrent.futures import Executor, InvalidStateError
 from concurrent.futures._base import LOGGER
 from concurrent.futures.process import BrokenProcessPool as _BPPException
 from multiprocessing.connection import wait
@@ -837,7 +837,12 @@ class _ExecutorManagerThread(threading.Thread):
                 _, work_item = self.pending_work_items.popitem()
             except KeyError:
                 break
-            work_item.future.set_exception(bpe)
+            try:
+                work_item.future.set_exception(bpe)
+            except InvalidStateError:
+                # The future was cancelled while it was still waiting to be
+                # dispatched: it stays cancelled.
+                pass
             # Delete references to object. See issue16284
             del work_item
 
@@ -857,12 +862,18 @@ class _ExecutorManagerThread(threading.Thread):
         if self.executor_flags.kill_workers:
             while self.pending_work_items:
                 _, work_item = self.pending_work_items.popitem()
-                work_item.future.set_exception(
-                    ShutdownExecutorError(
-                        "The Executor was shutdown with `kill_workers=True` "
-                        "before this job could complete."
+                try:
+                    work_item.future.set_exception(
+                        ShutdownExecutorError(
+                            "The Executor was shutdown with "
+                            "`kill_workers=True` before this job could "
+                            "complete."
+                        )
                     )
-                )
+                except InvalidStateError:
+                    # The future was cancelled while it was still waiting to
+                    # be dispatched: it stays cancelled.
+                    pass
                 del work_item
 
             # Kill the remaining worker forcibly to no waste time joining them
